@@ -19,7 +19,7 @@
 //   eval <x> <c> <coeffs-hex>   -> xx            evaluate_polynomial
 //   split <secret-hex> <t> <n> <rng>  -> ok idx:value,idx:value,... | throw:... | timeout | crash:...
 //        rng = z (all draws 0) | k<v> (all draws v) | r<seed> (xorshift stream); runs in a child
-//        process with a deadline (a hang is reported as `timeout`); the shares are remembered
+//        process with a CPU-time limit (a hang is reported as `timeout`); the shares are remembered
 //   combsel <t> <p,p,...>       -> combine() on the remembered shares at those positions (0-based)
 //   combine <t> <idx:value,...> -> ok secret-hex | throw:...     arbitrary share sets (`-` = none)
 #include "common/lineproto.hpp"
@@ -27,6 +27,7 @@
 #include <poll.h>
 #include <random>
 #include <signal.h>
+#include <sys/resource.h>
 #include <sys/types.h>
 #include <sys/wait.h>
 #include <unistd.h>
@@ -105,9 +106,15 @@ std::string do_combine(const std::vector<ShamirShare>& shares, std::uint8_t t) {
 
 // split in a child process with a deadline
 std::string do_split(const std::array<std::uint8_t, 32>& secret, std::uint8_t t, std::uint8_t n, const std::string& rng) {
+    // A hang is recognised by CPU time (robust on a loaded machine): the child may burn `cpu_s` seconds,
+    // a valid split needs a few milliseconds.  The wall-clock deadline is only a backstop.
+    static const long cpu_s = [] {
+        const char* e = std::getenv("VERIF_SPLIT_CPU_S");
+        return e ? std::atol(e) : 2L;
+    }();
     static const long deadline_ms = [] {
         const char* e = std::getenv("VERIF_SPLIT_TIMEOUT_MS");
-        return e ? std::atol(e) : 1500L;
+        return e ? std::atol(e) : 120000L;
     }();
     int fds[2];
     if (pipe(fds) != 0) return "harness-error:pipe";
@@ -116,6 +123,8 @@ std::string do_split(const std::array<std::uint8_t, 32>& secret, std::uint8_t t,
     if (pid < 0) return "harness-error:fork";
     if (pid == 0) {
         close(fds[0]);
+        struct rlimit rl { static_cast<rlim_t>(cpu_s), static_cast<rlim_t>(cpu_s + 1) };
+        setrlimit(RLIMIT_CPU, &rl);
         std::string line;
         try {
             verif_rng::seed(rng);
@@ -152,6 +161,7 @@ std::string do_split(const std::array<std::uint8_t, 32>& secret, std::uint8_t t,
     int status = 0;
     waitpid(pid, &status, 0);
     if (timed_out) return "timeout";
+    if (WIFSIGNALED(status) && (WTERMSIG(status) == SIGXCPU || WTERMSIG(status) == SIGKILL) && line.empty()) return "timeout";
     if (WIFSIGNALED(status)) return "crash:signal" + std::to_string(WTERMSIG(status));
     if (WIFEXITED(status) && WEXITSTATUS(status) != 0) return "crash:exit" + std::to_string(WEXITSTATUS(status));
     return line;
